@@ -209,6 +209,97 @@ fn run_td_wide<'a, B: DecisionNNFBuilder<'a>>(b: &'a B, cfg: &str, nv: usize, em
     }
 }
 
+/// SIZE without new semantics: the printed CNF with one of its clauses repeated `copies` times right after its first clause (the
+/// models are those TLC printed; the clause list, the literal-occurrence numbering and the watch lists are thousands of entries long)
+fn dup_padded(v: &Value, rng: &mut Rng, copies: usize) -> Option<Vec<Vec<Literal>>> {
+    let cl = clauses_of(v);
+    if cl.len() < 2 {
+        return None;
+    }
+    let wide: Vec<usize> = (0..cl.len()).filter(|i| cl[*i].len() >= 2).collect();
+    let d = if wide.is_empty() { rng.below(cl.len()) } else { wide[rng.below(wide.len())] };
+    let mut out = vec![cl[0].clone()];
+    for _ in 0..copies {
+        out.push(cl[d].clone());
+    }
+    out.extend(cl[1..].iter().cloned());
+    Some(out)
+}
+/// the same with the bulk on FRESH variables z = nv, f = nv + 1: the unit clause (z), `copies` copies of (z | f), then the printed
+/// clauses - which now all lie beyond the first ~6 600 literal occurrences. Models: the printed ones with z true and f free.
+fn fresh_padded(v: &Value, nv: usize, copies: usize) -> Vec<Vec<Literal>> {
+    let lit = |l: usize, p: bool| Literal::new(VarLabel::new_usize(l), p);
+    let mut out = vec![vec![lit(nv, true)]];
+    for _ in 0..copies {
+        out.push(vec![lit(nv, true), lit(nv + 1, true)]);
+    }
+    out.extend(clauses_of(v));
+    out
+}
+
+/// DEPTH without new semantics: every variable x of the printed CNF gets a chain x <-> y1 <-> y2 ... <-> yL of fresh variables, and
+/// some occurrences of x in the clauses are replaced by yL. The models of the result are the models TLC printed, each extended by
+/// y_k = x; deciding any variable of a chain propagates through all of it (implication chains hundreds of steps deep).
+/// Returns (clauses, number of variables, for each original variable its chain's labels).
+fn chain_padded(v: &Value, nv: usize, rng: &mut Rng, len: usize) -> (Vec<Vec<Literal>>, usize, Vec<Vec<usize>>) {
+    chain_padded2(v, nv, rng, len, None)
+}
+fn chain_padded2(v: &Value, nv: usize, rng: &mut Rng, len: usize, force_all_ends: Option<bool>) -> (Vec<Vec<Literal>>, usize, Vec<Vec<usize>>) {
+    let cl = clauses_of(v);
+    // all chains of one CNF have the same length `len` (the caller cycles through 2^k - 1, 2^k, 2^k + 1: a depth bound or a narrow
+    // counter is most likely a power of two)
+    let lens: Vec<usize> = vec![len; nv];
+    let chains: Vec<Vec<usize>> = (0..nv).map(|x| (0..lens[x]).map(|k| nv + x * len + k).collect()).collect();
+    let lit = |l: usize, p: bool| Literal::new(VarLabel::new_usize(l), p);
+    let all_ends = force_all_ends.unwrap_or_else(|| rng.coin()); // every occurrence moved to the far end of its chain, or three in four
+    let mut out: Vec<Vec<Literal>> = cl
+        .iter()
+        .map(|c| c.iter().map(|l| { let ch = &chains[l.label().value_usize()]; if all_ends || rng.chance(3, 4) { lit(ch[ch.len() - 1], l.polarity()) } else { *l } }).collect())
+        .collect();
+    for x in 0..nv {
+        let mut prev = x;
+        for y in &chains[x] {
+            out.push(vec![lit(prev, false), lit(*y, true)]);
+            out.push(vec![lit(prev, true), lit(*y, false)]);
+            prev = *y;
+        }
+    }
+    for i in (1..out.len()).rev() {
+        out.swap(i, rng.below(i + 1));
+    }
+    // every label below nv + nv * len must occur (num_vars = largest label + 1, and the order lists them all): the unused tail of each
+    // stride hangs off the chain's end as further equivalences
+    let mut chains = chains;
+    for x in 0..nv {
+        let mut prev = *chains[x].last().unwrap();
+        for k in lens[x]..len {
+            let y = nv + x * len + k;
+            out.push(vec![lit(prev, false), lit(y, true)]);
+            out.push(vec![lit(prev, true), lit(y, false)]);
+            chains[x].push(y);
+            prev = y;
+        }
+    }
+    (out, nv + nv * len, chains)
+}
+
+fn bdd_eval_full(p: BddPtr, asg: &[bool]) -> bool {
+    let mut cur = p;
+    let mut neg = false;
+    loop {
+        match cur {
+            BddPtr::PtrTrue => return !neg,
+            BddPtr::PtrFalse => return neg,
+            BddPtr::Reg(n) | BddPtr::Compl(n) => {
+                if matches!(cur, BddPtr::Compl(_)) {
+                    neg = !neg;
+                }
+                cur = if asg[n.var.value_usize()] { n.high } else { n.low };
+            }
+        }
+    }
+}
+
 fn perms(n: usize) -> Vec<Vec<usize>> {
     if n == 0 {
         return vec![vec![]];
@@ -366,7 +457,15 @@ pub fn replay_cnfvec(args: &Args) {
                 let some: Vec<&Value> = vecs.iter().step_by(3).collect();
                 for kind in 0..3 {
                     let emb = pick_emb(&mut rng, nv, nlabels);
-                    let lab: Vec<usize> = rng.perm(nlabels);
+                    let mut lab: Vec<usize> = rng.perm(nlabels);
+                    if kind < 2 {
+                        // on a spine the CNF's variables go to the deep end (depths beyond 60)
+                        lab.retain(|l| !emb.contains(l));
+                        lab.extend(emb.iter().cloned());
+                        if kind == 1 {
+                            lab.reverse();
+                        }
+                    }
                     let labels: Vec<VarLabel> = lab.iter().map(|v| VarLabel::new_usize(*v)).collect();
                     let vt = match kind {
                         0 => VTree::right_linear(&labels),
@@ -393,6 +492,54 @@ pub fn replay_cnfvec(args: &Args) {
                                 Err(m) => note(&mut t, &name, v, json!({"panic": m, "emb": emb})),
                             }
                         }
+                    }
+                }
+            }
+            if nv == 3 && vecs.len() >= 128 {
+                // LIFTED CNFs (decision nodes with up to 128 elements): seven further variables x3..x9 under the left child of the root,
+                // x0..x2 under the right; the CNF has, for every one of the 128 assignments m of x3..x9, the clauses of one printed CNF,
+                // each guarded by "x3..x9 = m" (seven more literals). Its models: the printed models of CNF number m in slice m.
+                for round in 0..3usize {
+                    configs += 1;
+                    let pick: Vec<&Value> = (0..128).map(|_| &vecs[rng.below(vecs.len())]).collect();
+                    let mut cl: Vec<Vec<Literal>> = vec![];
+                    for (m, v) in pick.iter().enumerate() {
+                        for c in clauses_of(v) {
+                            let mut c2 = c.clone();
+                            for k in 0..7 {
+                                c2.push(Literal::new(VarLabel::new_usize(3 + k), (m >> k) & 1 == 0)); // false exactly on slice m
+                            }
+                            cl.push(c2);
+                        }
+                    }
+                    if round == 1 {
+                        for i in (1..cl.len()).rev() {
+                            cl.swap(i, rng.below(i + 1));
+                        }
+                    }
+                    let cnf = Cnf::new(&cl);
+                    let left: Vec<VarLabel> = rng.perm(7).into_iter().map(|v| VarLabel::new_usize(v + 3)).collect();
+                    let right: Vec<VarLabel> = rng.perm(3).into_iter().map(VarLabel::new_usize).collect();
+                    let lt = if round == 2 { VTree::even_split(&left, 2) } else { VTree::right_linear(&left) };
+                    let vt = VTree::new_node(Box::new(lt), Box::new(VTree::right_linear(&right)));
+                    rsdd::verif::set_table_capacity(0);
+                    let bm = CompressionSddBuilder::new(vt);
+                    t.steps += 1;
+                    let r = guarded(|| {
+                        let p = bm.compile_cnf(&cnf);
+                        for asg in 0..1024usize {
+                            let a: Vec<bool> = (0..10).map(|v| (asg >> v) & 1 == 1).collect();
+                            let want = (models_of(pick[asg >> 3]) >> (asg & 7)) & 1 == 1;
+                            if p.evaluate(&a) != want {
+                                return Some(asg);
+                            }
+                        }
+                        None
+                    });
+                    match r {
+                        Ok(None) => {}
+                        Ok(Some(asg)) => note(&mut t, "sdd, lifted CNF over 10 variables (128-element decision nodes)", pick[asg >> 3], json!({"assignment": asg, "slice": asg >> 3})),
+                        Err(m) => note(&mut t, "sdd, lifted CNF over 10 variables (128-element decision nodes)", pick[0], json!({"panic": m})),
                     }
                 }
             }
@@ -477,6 +624,119 @@ pub fn replay_cnfvec(args: &Args) {
                     } else {
                         let b = SemanticDecisionNNFBuilder::<{ primes::U64_LARGEST }>::new(vl(&ord));
                         run_td_wide(&b, &name, nv, &emb, nlabels, &some, &mut t);
+                    }
+                }
+            }
+            if nv >= 2 {
+                // SIZE and DEPTH (see dup_padded / chain_padded): one builder per CNF, both stores
+                let some: Vec<&Value> = vecs.iter().step_by(5).collect();
+                configs += 4;
+                rsdd::verif::set_table_capacity(0);
+                for (k, v) in some.iter().enumerate() {
+                    let exp = models_of(v);
+                    let bulk = k % 3 == 0; // the bulk-padded variants on a third of these
+                    // (a) a clause list of ~3 300 clauses / ~7 000 literal occurrences
+                    let copies = 3300 + rng.below(200);
+                    if let Some(cl) = dup_padded(v, &mut rng, copies).filter(|_| bulk) {
+                        let cnf = Cnf::new(&cl);
+                        if cnf.num_vars() == nv {
+                            let o = &orders[k % orders.len()];
+                            t.steps += 1;
+                            let r = if k % 2 == 0 {
+                                guarded(|| { let b = StandardDecisionNNFBuilder::new(vl(o)); let p = b.compile_cnf_topdown(&cnf); (bdd_tt(p, nv), p.is_false(), no_repeat(p, 0)) })
+                            } else {
+                                guarded(|| { let b = SemanticDecisionNNFBuilder::<{ primes::U64_LARGEST }>::new(vl(o)); let p = b.compile_cnf_topdown(&cnf); (bdd_tt(p, nv), p.is_false(), no_repeat(p, 0)) })
+                            };
+                            match r {
+                                Ok((got, isf, nr)) => {
+                                    if got != exp || (exp == 0) != isf || !nr {
+                                        note(&mut t, "top-down, one clause repeated ~3300 times", v, json!({"models_tt": got, "is_false_constant": isf, "no_repeat": nr, "clauses": cl.len()}));
+                                    }
+                                }
+                                Err(m) => note(&mut t, "top-down, one clause repeated ~3300 times", v, json!({"panic": m})),
+                            }
+                        }
+                    }
+                    // (a') the bulk on two fresh variables: every printed clause lies beyond ~6 600 literal occurrences
+                    if bulk {
+                        let cl = fresh_padded(v, nv, 3300 + rng.below(50));
+                        let cnf = Cnf::new(&cl);
+                        let n2 = nv + 2;
+                        let mut o2: Vec<usize> = orders[(k + 1) % orders.len()].clone();
+                        match k % 3 { 0 => { o2.insert(0, nv); o2.push(nv + 1); } 1 => { o2.push(nv); o2.push(nv + 1); } _ => { o2.insert(0, nv + 1); o2.insert(1, nv); } }
+                        // expected: the printed models, z = 1, f free
+                        let mut exp2 = 0u64;
+                        for a in 0..(1usize << nv) {
+                            if (exp >> a) & 1 == 1 {
+                                exp2 |= 1 << (a | (1 << nv));
+                                exp2 |= 1 << (a | (1 << nv) | (1 << (nv + 1)));
+                            }
+                        }
+                        t.steps += 1;
+                        let r = if k % 2 == 1 {
+                            guarded(|| { let b = StandardDecisionNNFBuilder::new(vl(&o2)); let p = b.compile_cnf_topdown(&cnf); (bdd_tt(p, n2), p.is_false(), no_repeat(p, 0)) })
+                        } else {
+                            guarded(|| { let b = SemanticDecisionNNFBuilder::<{ primes::U64_LARGEST }>::new(vl(&o2)); let p = b.compile_cnf_topdown(&cnf); (bdd_tt(p, n2), p.is_false(), no_repeat(p, 0)) })
+                        };
+                        match r {
+                            Ok((got, isf, nr)) => {
+                                if got != exp2 || (exp2 == 0) != isf || !nr {
+                                    note(&mut t, "top-down, ~3300 copies of a clause over two fresh variables in front", v, json!({"models_tt": got, "expected_tt": exp2, "is_false_constant": isf, "no_repeat": nr, "order": o2}));
+                                }
+                            }
+                            Err(m) => note(&mut t, "top-down, ~3300 copies of a clause over two fresh variables in front", v, json!({"panic": m})),
+                        }
+                    }
+                    // (b) equivalence chains of ~128 / ~256 fresh variables per variable
+                    // the first 36 of these run the grid {64, 128, 256, 512} x {-1, 0, +1} three times on CNFs that have a clause over two
+                    // variables, with every occurrence at the far end of its chain and the original variables decided first: two cascades
+                    // of exactly that length end in the two literals of one clause
+                    let grid = k < 36 && clauses_of(v).iter().any(|c| c.iter().map(|l| l.label()).collect::<std::collections::BTreeSet<_>>().len() >= 2);
+                    let clen = [64usize, 128, 256, 512][(k / 3) % 4] + (k % 3) - 1;
+                    let (cl, nwide, chains) = if grid { chain_padded2(v, nv, &mut rng, clen, Some(true)) } else { chain_padded(v, nv, &mut rng, clen) };
+                    let cnf = Cnf::new(&cl);
+                    if cnf.num_vars() != nwide {
+                        continue;
+                    }
+                    // mostly the original variables first (each decision then runs down a whole chain)
+                    let order: Vec<usize> = if grid { (0..nwide).collect() } else { match k % 4 { 3 => rng.perm(nwide), 2 => (0..nwide).rev().collect(), _ => (0..nwide).collect() } };
+                    t.steps += 1;
+                    let check = |p: BddPtr| -> Option<Value> {
+                        // on the extension of every assignment of the original variables: the printed models, nothing else;
+                        // with one chain variable flipped: false
+                        for a in 0..(1usize << nv) {
+                            let mut asg = vec![false; nwide];
+                            for x in 0..nv {
+                                let bx = (a >> x) & 1 == 1;
+                                asg[x] = bx;
+                                for y in &chains[x] {
+                                    asg[*y] = bx;
+                                }
+                            }
+                            let want = (exp >> a) & 1 == 1;
+                            if bdd_eval_full(p, &asg) != want {
+                                return Some(json!({"assignment": a, "diagram_says": !want}));
+                            }
+                            let (x, kk) = (a % nv, (a * 37) % chains[a % nv].len());
+                            asg[chains[x][kk]] = !asg[chains[x][kk]];
+                            if bdd_eval_full(p, &asg) {
+                                return Some(json!({"assignment": a, "flipped_chain_variable": chains[x][kk], "diagram_says": true}));
+                            }
+                        }
+                        if (exp == 0) != p.is_false() {
+                            return Some(json!({"is_false_constant": p.is_false()}));
+                        }
+                        None
+                    };
+                    let r = if k % 2 == 1 {
+                        guarded(|| { let b = StandardDecisionNNFBuilder::new(vl(&order)); check(b.compile_cnf_topdown(&cnf)) })
+                    } else {
+                        guarded(|| { let b = SemanticDecisionNNFBuilder::<{ primes::U64_LARGEST }>::new(vl(&order)); check(b.compile_cnf_topdown(&cnf)) })
+                    };
+                    match r {
+                        Ok(None) => {}
+                        Ok(Some(bad)) => note(&mut t, "top-down, 300-step equivalence chain per variable", v, bad),
+                        Err(m) => note(&mut t, "top-down, 300-step equivalence chain per variable", v, json!({"panic": m})),
                     }
                 }
             }
